@@ -168,7 +168,42 @@ func init() {
 // c06Layout rewrites the line ends of a program: 0 as written, 1 a blank or a tab before every newline and
 // blank-only lines in between, 2 CRLF line ends, 3 a mixture.  Line numbers are whatever the text then has.
 func c06Layout(src string, k int) string {
-	switch k % 4 {
+	switch k % 6 {
+	case 4, 5:
+		// comments of every shape between the lines: documentation boxes whose lines end in a star, stars before the
+		// line break, a slash right behind the opener, nested-looking openers, line comments holding block openers
+		shapes := []string{"/**\n * note\n */", "/* a *\n b */", "/***/", "/*/ x */", "/* x **/", "/*\n*\n*/", "// c /* not open", "/* /* */", "/* ends in star *\n*/", "/**/", "/*\r\n*\r\n*/", "/* * / * */"}
+		// only behind line breaks that stand between tokens (not inside a string or a comment that spans lines)
+		rs := []rune(src)
+		ref := reflex.Lex(rs)
+		inside := make([]bool, len(rs)+1)
+		for _, t := range ref.Toks {
+			for p := t.Pos; p < t.End && p < len(rs); p++ {
+				inside[p] = true
+			}
+		}
+		for _, cm := range ref.Comments {
+			for p := cm[0]; p < cm[1] && p < len(rs); p++ {
+				inside[p] = true
+			}
+		}
+		if len(ref.Diags) > 0 {
+			return src
+		}
+		var b strings.Builder
+		n := 0
+		for p, r := range rs {
+			b.WriteRune(r)
+			if r == '\n' && !inside[p] {
+				n++
+				if (n+k)%2 == 0 {
+					b.WriteString(shapes[(n+k/6)%len(shapes)] + "\n")
+				}
+			}
+		}
+		return b.String()
+	}
+	switch k % 6 {
 	case 1:
 		lines := strings.Split(src, "\n")
 		var b strings.Builder
@@ -421,7 +456,7 @@ func TestC06(t *testing.T) {
 			if rapid.Bool().Draw(rt, "multiLinePrelude") {
 				pre = c06PreludeML
 			}
-			src := c06Layout(pre+strings.Join(lines, "\n")+c06Tail, rapid.IntRange(0, 3).Draw(rt, "lineEnds"))
+			src := c06Layout(pre+strings.Join(lines, "\n")+c06Tail, rapid.IntRange(0, 5).Draw(rt, "lineEnds"))
 			c.c06Program(s, "rand-planted-fault", src, true, rapid.IntRange(0, 9).Draw(rt, "cli") == 0, "planted-"+planted)
 		})
 	})
